@@ -42,11 +42,11 @@ def main():
                     shutil.rmtree(p)
                 elif os.path.exists(p):
                     os.remove(p)
-        r = subprocess.run(["diff", "-ruN", "--exclude=__pycache__", "--exclude=tmpfiles", "a/localcider", "b/localcider"], capture_output=True, text=True,
-                           cwd=_link(clean, twin))
+        r = subprocess.run(["diff", "-ruN", "--exclude=__pycache__", "--exclude=tmpfiles", "a/localcider", "b/localcider"], capture_output=True,
+                           cwd=_link(clean, twin))          # bytes: CRLF files must keep their line ends in the patch
         dst = os.path.join(HERE, "preserving", "T-" + name)
         os.makedirs(dst, exist_ok=True)
-        open(os.path.join(dst, "patch.diff"), "w").write(r.stdout)
+        open(os.path.join(dst, "patch.diff"), "wb").write(r.stdout)
         json.dump({"kind": "repaired twin of seeded/%s" % name, "summary": "seeded change %s with its defect corrected (%s); the seed's demo.py passes on it" % (
             name, "; ".join("%r -> %r" % p for p in pairs)), "demo": "seeded/%s/demo.py" % name, "suite": "42 baseline tests pass"},
             open(os.path.join(dst, "meta.json"), "w"), indent=1)
